@@ -131,6 +131,37 @@ class RepoIndex:
                 return q, self.functions[q][1]
         return None
 
+    def incompatible_overrides(self, cls, name, npos, kwnames):
+        """classes at or below `cls` (in the indexed files) that define `name` with a signature that cannot accept a call with
+        `npos` positional arguments and the keyword arguments `kwnames` (a call on an arbitrary node dispatches to any of them)"""
+        bad = []
+        for c in sorted(self.classes):
+            if cls not in self.mro(c):
+                continue
+            q = c + '.' + name
+            if q not in self.functions:
+                continue
+            a = self.functions[q][1].args
+            params = [p.arg for p in a.posonlyargs + a.args][1:]
+            kwonly = [p.arg for p in a.kwonlyargs]
+            ok = True
+            if npos > len(params) and a.vararg is None:
+                ok = False
+            for k in kwnames:
+                if k == '**':
+                    continue
+                if k not in params[npos:] and k not in kwonly and a.kwarg is None:
+                    ok = False
+            # required parameters that the call does not supply
+            ndef = len(a.defaults)
+            required = params[:len(params) - ndef] if ndef else params
+            for i, p in enumerate(required):
+                if i >= npos and p not in kwnames:
+                    ok = False
+            if not ok:
+                bad.append(q)
+        return bad
+
     def is_property(self, node):
         return any(isinstance(d, ast.Name) and d.id == 'property' for d in node.decorator_list)
 
